@@ -118,7 +118,9 @@ def target(h0: int, h1: int, h2: int, port: int, p0: int, p1: int) -> bool:
     if spell is not None:
         # the port as the client spells it (leading zeros are legal digits of a port): names this number
         port = int(spell)
-    authority = (b'u:p@' if userinfo else b'') + host + ((b':' + (spell.encode() if spell is not None else str(port).encode())) if has_port else b'')
+    ui = {False: None, True: (b'u', b'p'), 'u': (b'u', None), 'u:p:q': (b'u', b'p:q'), ':p': (b'', b'p')}[userinfo]
+    ui_b = b'' if ui is None else (ui[0] + (b':' + ui[1] if ui[1] is not None else b'') + b'@')
+    authority = ui_b + host + ((b':' + (spell.encode() if spell is not None else str(port).encode())) if has_port else b'')
     if form == 'abs':
         tgt = b'http://' + authority + path
         line = b'GET ' + tgt + b' HTTP/1.1\r\nHost: x\r\n\r\n'
@@ -145,8 +147,8 @@ def target(h0: int, h1: int, h2: int, port: int, p0: int, p1: int) -> bool:
         return fail('port differs', got=repr(u.port), target=repr(tgt))
     if form != 'connect' and u.remainder != exp_path:
         return fail('path differs', got=repr(u.remainder), want=repr(exp_path), target=repr(tgt))
-    if userinfo and (u.username != b'u' or u.password != b'p'):
-        return fail('userinfo differs')
+    if ui is not None and (u.username != ui[0] or u.password != ui[1]):
+        return fail('userinfo differs', got=repr((u.username, u.password)), want=repr(ui))
     # (2) through the real handler down to the OS-level connect
     del CALLS[:]
     with concrete():
@@ -348,6 +350,15 @@ def obligations(tier):
     for pv in (1, 80, 443, 65535):
         obs.append({'name': 'target.abs.name1.portval%d' % pv, 'fn': 'target',
                     'cfg': {'form': 'abs', 'host': 'name1', 'port': True, 'plen': 0, 'portval': pv}, 'timeout': 120})
+    # userinfo = user [ ":" password ]: with an IPv6 literal and no port, without a password, with a colon inside the password
+    for hk, has_port in (('v6a', False), ('v6c', False), ('v6d', False), ('name1', False), ('v4', True)):
+        for ui in (True, 'u', 'u:p:q', ':p'):
+            for form in ('abs', 'connect'):
+                if tier == 'quick' and form == 'connect' and hk not in ('v6a', 'name1'):
+                    continue
+                obs.append({'name': 'target.%s.%s.%s.userinfo_%s' % (form, hk, 'port' if has_port else 'noport', str(ui).replace(':', '_')),
+                            'fn': 'target', 'cfg': {'form': form, 'host': hk, 'port': has_port, 'plen': 0 if form == 'abs' else -1,
+                                                    'userinfo': ui}, 'timeout': 300})
     for hk in ('name1', 'v4', 'v6a', 'v6c'):
         for form in ('abs', 'connect'):
             obs.append({'name': 'target.pool.%s.%s' % (form, hk), 'fn': 'target',
@@ -369,12 +380,12 @@ META = {
     'bounds': {
         'quick': 'forms: absolute http://, scheme-less //, CONNECT authority; hosts: reg-names with 1-3 symbolic [a-z0-9] characters, IPv4 '
                  'with 2 symbolic digits, 6 IPv6 spellings (::x, x::1, 2001:db8::x:1, ::ffff:1.2.3.x, full form, ::) with a symbolic hex digit; '
-                 'port absent or symbolic 1..65535 rendered with str() (plus 5 spellings with leading zeros); also with --enable-conn-pool; optional userinfo u:p; path of 0..2 symbolic visible characters; '
+                 'port absent or symbolic 1..65535 rendered with str() (plus 5 spellings with leading zeros); also with --enable-conn-pool; optional userinfo (u:p, u, u:p:q, :p); path of 0..2 symbolic visible characters; '
                  'with a resolve_dns plugin: two successive connections of one worker to the same host, ports symbolic, explicit/defaulted, http/CONNECT; '
                  'damaged: missing bracket, non-numeric/empty/negative/over-range/zero port, empty host, unknown scheme',
         'thorough': 'all combinations of form x host x port x path x userinfo',
     },
-    'outside': 'symbolic digits inside an IPv4-mapped IPv6 literal (CrossHair mis-executes ipaddress on that symbolic string: its counterexample did not reproduce natively, so the spelling is checked with concrete digits); userinfo without colon; IDNA / non-ASCII hosts; origin-form targets (no outbound connection); targets with more than '
+    'outside': 'symbolic digits inside an IPv4-mapped IPv6 literal (CrossHair mis-executes ipaddress on that symbolic string: its counterexample did not reproduce natively, so the spelling is checked with concrete digits); IDNA / non-ASCII hosts; origin-form targets (no outbound connection); targets with more than '
                '3 symbolic characters',
     'stubs': ['socket.socket / socket.create_connection inside proxy.common.utils replaced by recorders (the real new_socket_connection and '
               'its ipaddress-based literal/name dispatch run symbolically)', 'FakeSocket client; integer clock'],
